@@ -12,6 +12,7 @@ package c37
 import (
 	"errors"
 	"fmt"
+	"runtime"
 	"sync"
 	"sync/atomic"
 	"time"
@@ -222,7 +223,14 @@ func run(c *core.Case) {
 			c.Count("slow_but_finished", 1)
 		default:
 			if quiet {
-				c.Violation("C37|calls-never-return|"+sc.Name, fmt.Sprintf("%d calls still running after %s and no call completed during a further %s window (%s)", inflight.Load(), deadline, quietWindow, before), map[string]any{"scenario": sc, "config": cfg})
+				buf := make([]byte, 1<<20)
+				buf = buf[:runtime.Stack(buf, true)]
+				stacks := string(buf)
+				if len(stacks) > 60000 {
+					stacks = stacks[:60000]
+				}
+				prios := fmt.Sprint(db.VerifLSM().VerifPriorities())
+				c.Violation("C37|calls-never-return|"+sc.Name, fmt.Sprintf("%d calls still running after %s and no call completed during a further %s window (%s)", inflight.Load(), deadline, quietWindow, before), map[string]any{"scenario": sc, "config": cfg, "compaction_priorities": prios, "goroutines": stacks})
 			} else {
 				c.Inconclusive(fmt.Sprintf("%s: still running after %s but calls keep completing", sc.Name, deadline))
 			}
